@@ -587,7 +587,16 @@ func (st *store) exec(line string) (out string) {
 		}
 		return "ok"
 	case "clone":
-		st.pjs[ws[1]] = pjOf(ws[2]).Clone(nil)
+		var dst *simdjson.ParsedJson
+		if len(ws) > 3 {
+			switch ws[3] {
+			case "1":
+				dst = &simdjson.ParsedJson{}
+			case "2", "3":
+				dst = st.pjs["cd"]
+			}
+		}
+		st.pjs[ws[1]] = pjOf(ws[2]).Clone(dst)
 		return "ok"
 	case "scribble":
 		// the model replaces the message by 0xFF bytes; here the caller's input buffer is overwritten,
